@@ -166,6 +166,20 @@ impl Prop for C04 {
                     ended[m] = true;
                 }
             }
+            // the end state may also be reached (and must then be kept) in the middle of a call
+            for s in &rec.steps {
+                if let VerifStep::Target { machine, target: Some(t) } = s {
+                    if *t == STATE_END {
+                        if !ended[*machine] && rec.snap.machines[*machine].state != STATE_END {
+                            return fail(
+                                "machine-left-end-state",
+                                format!("call {ci}: machine {machine} transitioned to its end state during the call but is in state {} afterwards", rec.snap.machines[*machine].state),
+                            );
+                        }
+                        ended[*machine] = true;
+                    }
+                }
+            }
         }
         if n == 0 {
             obs.hit("zero_machines");
